@@ -612,8 +612,15 @@ func (t *Transpiler) transpileCall(a *parser.Call) (influxql.Node, error) {
 
 	// {count,avg,sum,min,max,...}_over_time()
 	if fn, ok := rangeVectorFunctions[a.Func.Name]; ok {
+		innerDropMetric := t.dropMetric
 		t.dropMetric = true
 		if subExpr, subOk := a.Args[fn.vectorPosition].(*parser.SubqueryExpr); subOk {
+			if fn.keepMetric {
+				// last_over_time keeps the metric name of its argument (over a range selector
+				// setAggregateFields sees to it): over a subquery the name stays iff the inner
+				// expression kept it
+				t.dropMetric = innerDropMetric
+			}
 			return t.transpilePromSubqueryFunc(subExpr, fn, args)
 		}
 		return t.transpilePromFunc(fn, args, t.setAggregateFields)
